@@ -96,6 +96,14 @@ def contexts(dialect, text, exp, kind):
     if dialect not in ("ODL", "PDS3"):
         yield "units-on-seq", "k = (%s, 1) <m>" % text, [("k", Q(S(exp, 1), "m"))]
         yield "units-on-seq-after-comment", "k = (%s, 1) /* c */ <m>" % text, [("k", Q(S(exp, 1), "m"))]
+    if dialect in ("ISIS", "OMNI") and kind in ("int", "real", "ustr") and len(text) >= 2 and "-" not in text[:-1]:
+        # the dialect's line continuation: a dash at the end of a line joins the next line (leading
+        # white space dropped), whatever kind of line break the text uses
+        h = len(text) // 2
+        if text[h - 1] not in "+-#" and text[h] not in "#":
+            for brk, name in (("\n", "lf"), ("\r\n", "crlf"), ("\r", "cr"), ("\f", "ff")):
+                yield ("dash-continuation-" + name, "k = %s-%s   %s%sj = 1%s" % (text[:h], brk, text[h:], brk, brk),
+                       [("k", exp), ("j", 1)])
     if dialect in ("ISIS", "OMNI") and not multiline:
         yield "hash-comment", "k = %s # c\nj = 1\n" % text, [("k", exp), ("j", 1)]
         yield "hash-comment-line", "# c = 2\nk = %s\n# d\nj = 1\n" % text, [("k", exp), ("j", 1)]
@@ -136,8 +144,8 @@ def shard_values(spec):
     sp = spell.spellings(d)[lo:hi]
     for text, exp, kind in sp:
         for ctxname, doc, items in contexts(d, text, exp, kind):
-            if d in ("ISIS", "OMNI") and _has_dash_continuation(doc):
-                continue
+            if d in ("ISIS", "OMNI") and _has_dash_continuation(doc) and not ctxname.startswith("dash-continuation"):
+                continue          # an accidental '-' + line end; the deliberate ones have their own contexts
             acc.sets["ctx"].add((ctxname, kind))
             judge(acc, d, ctxname, doc, items, {"spelling": text})
     acc.sample({"dialect": d, "spellings": [s[0] for s in sp[:4]]}, cap=1)
